@@ -179,6 +179,7 @@ type runResult struct {
 	blind     []string
 	panicked  string
 	loadError string
+	extraCov  map[string]any
 }
 
 // mergeObligations removes duplicates that arise from analysing several build
@@ -370,6 +371,9 @@ func (res *runResult) writeEvidence(path string, seed int, cmd string) error {
 			"/verif/known_findings.jsonl",
 		},
 		"exhaustive": true,
+	}
+	for k, v := range res.extraCov {
+		cov[k] = v
 	}
 	ev := evidence{
 		PropertyID:  res.prop.ID,
